@@ -1199,6 +1199,12 @@ func (o Map) IndexGet(index Object) (Object, error) {
 
 // Equal implements Object interface.
 func (o Map) Equal(right Object) bool {
+	if sm, ok := right.(*SyncMap); ok {
+		// a SyncMap equals what the map it guards equals (see SyncMap.Equal)
+		sm.RLock()
+		defer sm.RUnlock()
+		return o.Equal(sm.Value)
+	}
 	v, ok := right.(Map)
 	if !ok {
 		return false
@@ -1349,6 +1355,9 @@ func (o *SyncMap) IndexGet(index Object) (Object, error) {
 
 // Equal implements Object interface.
 func (o *SyncMap) Equal(right Object) bool {
+	if right == Object(o) {
+		return true
+	}
 	o.mu.RLock()
 	defer o.mu.RUnlock()
 
@@ -1463,6 +1472,10 @@ func (o *Error) Error() string {
 func (o *Error) Equal(right Object) bool {
 	if v, ok := right.(*Error); ok {
 		return v == o
+	}
+	// a RuntimeError equals what the error it wraps equals (see RuntimeError.Equal)
+	if v, ok := right.(*RuntimeError); ok {
+		return v.Err == o
 	}
 	return false
 }
